@@ -127,6 +127,20 @@ def run_case(case: dict) -> CaseResult:
 
                 fstub.loop().run_until_complete(asyncio.sleep(0))
         before = len(tr.writes)
+        if not batch:
+            # the empty batch decodes to no message: nothing (or nothing but a zero-length write) goes out, and the next
+            # batch is framed / numbered as if it had not been there
+            classes.add("empty_batch")
+            try:
+                h.write_packets([], bool(case.get("debug")))
+            except Exception as e:  # noqa: BLE001
+                res.violations.append(Violation(ID, f"c02:write_packets-raised:{type(e).__name__}", "empty batch: " + repr(e)))
+                break
+            junk = b"".join(bytes(x) for x in tr.writes[before:])
+            if junk:
+                res.violations.append(Violation(ID, "c02:empty-batch-wrote-bytes", f"call {ci} with no packets wrote {junk.hex()}"))
+                break
+            continue
         if case["mode"] == "noise" and any(len(p) > 65515 for _t, p in batch):
             # OUT OF DOMAIN for the encoding itself (the 16-bit lengths cannot carry it): whatever the call does --
             # refuse, or write something -- is not judged.  What IS judged: the frames written afterwards still carry
@@ -262,7 +276,7 @@ def _case(draw, tier):
     big_budget = 3
     calls = []
     for _ in range(ncalls):
-        n = draw(st.one_of(st.just(1), st.integers(1, 8)))
+        n = draw(st.one_of(st.just(1), st.integers(1, 8), st.sampled_from([0, 1, 2, 3])))
         batch = []
         for _ in range(n):
             if mode == "noise":
@@ -304,6 +318,9 @@ def enumerated(tier):
     key = bytes(range(32)).hex()
     yield {"mode": "plain", "calls": [[[t, {"h": "0801"}]] for t in regs[:40]]}
     yield {"mode": "noise", "key": key, "calls": [[[t, {"h": "0801"}]] for t in regs[:40]]}
+    for calls in ([[], [[7, {"h": ""}]]], [[[7, {"h": ""}]], [], [[8, {"h": ""}], [26, {"h": "0801"}]], [], []], [[]]):
+        yield {"mode": "plain", "calls": calls}
+        yield {"mode": "noise", "key": key, "calls": calls}
     for lo in range(0, 123, 8):
         yield {"mode": "plain", "calls": [[[t, {"h": "%02x" % t}] for t in regs[lo : lo + 8]]]}
         yield {"mode": "noise", "key": key, "calls": [[[t, {"h": "%02x" % t}] for t in regs[lo : lo + 8]]]}
